@@ -151,6 +151,7 @@ func RunC06(c *Ctx) {
 		workload.W7Generated(150000, c.Seed, sink)
 	}
 	workload.W7Templates(sink)
+	workload.W7Positions(72, sink)
 	// string seeds of W1 in top-level position, every byte everywhere
 	workload.W1(c.Thorough(), func(cs *h.Case) {
 		if cs.P[0] < 177 {
